@@ -301,7 +301,8 @@ check("C19",
            "declarator forms, sub-regions, module units, substitutions, reading every unit's links, one-sided bulk insertions, empty warehouses, printing) on a fresh Lexicon + units, destroyed in language "
            "order; oracle = exact accounting by the replaced operator new/delete: live blocks AND bytes after destruction equal the "
            "counts before construction and no delete of a non-live pointer (an imbalance must reproduce on replay); plus 29 chains of "
-           "50 Lexicons with overlapping lifetimes; the same histories to depth 2 (3) under ASan+UBSan for stale accesses. "
+           "50 Lexicons with overlapping lifetimes; the same histories to depth 2 (3) under ASan+UBSan for stale accesses; one operation asks "
+           "seven kinds of sequence for the elements at size(), size()+1, size()+7: a reference instead of a refusal is an access outside live objects. "
            "distinct_nontrivial = ordered histories of >= 2 operations.",
       text="Every operation history up to the bound is executed on the real Lexicon and destroyed; allocation balance is "
            "decided by exact accounting, stale access by sanitizers on every explored execution.",
@@ -388,7 +389,7 @@ check("C20",
            "print) to 2 threads, in two shapes (isolated: Lexicons alive until all are done; lifecycle: each thread creates, uses and "
            "destroys two Lexicons in a row), EVERY schedule with <= 2 preemptions (thorough: <= 3 for the isolated shape); to 3 threads: 35 "
            "assignments up to permutation with <= 1 preemption (quick) / all 125 with <= 2 (thorough). Oracle per schedule: each "
-           "thread's trace byte-identical to the same program run alone; nodes handed out by two live Lexicons intersect only in the "
+           "thread's trace byte-identical to the same program run alone (every program first records the unit's global namespace, its name, region and scope, and whether the name is its own Lexicon's unnamed identifier); nodes handed out by two live Lexicons intersect only in the "
            "process-wide constants; per-thread allocation balance (a block allocated by one thread and released by another is a "
            "violation); replayed twice before report. also two (three) Lexicons alive on ONE thread running the same program. "
            "(b) the same bodies free-running on 2,3,4,8,16 threads under ThreadSanitizer, each process starting COLD with 8 threads at "
